@@ -78,6 +78,14 @@ func (s *Spec) Has(kw string) bool {
 	return false
 }
 
+// Text is the raw property name as it appears in the emitted text: the concrete name, or the placeholder of the name atom.
+func (p *Prop) Text() string {
+	if p.Concrete != "" {
+		return p.Concrete
+	}
+	return AtomText(p.Name)
+}
+
 func (s *Spec) Clone() *Spec { return s.clone(map[*Spec]*Spec{}) }
 
 // clone keeps sharing: a Spec that occurs twice in the tree (one definition, two referrers) stays one Spec.
